@@ -4,8 +4,9 @@
   a URL, the verification policy of a TLS context.  Types only.
 -/
 import WS.Base.PyH2
+import WS.Base.Bytes
 namespace WS.H2
-open WS.PyH2
+open WS WS.PyH2
 
 /-- result of `parse_url` -/
 structure UrlParts where
@@ -66,6 +67,23 @@ inductive CaSource where
 inductive Policy where
   | fresh (verify : CertReqs) (checkHostname : Bool) (ca : CaSource) (sni : Str)
   | user (ctx : Nat) (sni : Str)            -- the caller's context, used as it is
+  deriving Repr, DecidableEq, Inhabited
+
+/-- reads and writes on one transport, in order. -/
+inductive IoEv where
+  | write (bs : Bytes)
+  | recv (n : Nat)            -- size asked of the transport
+  deriving Repr, DecidableEq, Inhabited
+
+/-- the transport-level actions of one `WebSocket.connect`, on one timeline; `i` numbers the
+    `_http.connect` calls. -/
+inductive Ev where
+  | dial (i : Nat) (u : UrlParts)        -- a TCP connection was opened (for the URL with parts `u`)
+  | adopt (i : Nat) (u : UrlParts)       -- the caller's pre-initialised socket is used
+  | plain (i : Nat) (e : IoEv)           -- CONNECT exchange with the proxy
+  | wrap (i : Nat) (p : Policy) (ok : Bool)
+  | io (i : Nat) (e : IoEv)              -- the WebSocket handshake
+  | close (i : Nat)
   deriving Repr, DecidableEq, Inhabited
 
 end WS.H2
